@@ -22,7 +22,7 @@ CWD    the working directory `rdsquashfs` is started in (absolute component path
 FAULT  `i=ERRNO`: call number `i` of the run (mkdir_p's calls, chdir, then the walks' calls) fails with ERRNO
 STATUS `ok` | `err:<kind>@<create|fill|attr>` | `err:duplicate`
 UPATH  the raw `--unpack-path` argument in hex (`-` = empty); it is canonicalised as options.c does
-NODE   preorder: `K:NAME:PAYLOAD:PERM:UID:GID:MTIME:DEV:XATTRS:NCHILDREN[:COPYFAIL:XATTRFAIL]`, K ∈ d f l b c p s,
+NODE   preorder: `K:NAME:PAYLOAD:PERM:UID:GID:MTIME:DEV:XATTRS:NCHILDREN[:COPYFAIL:XATTRFAIL[:DATASTART]]`, K ∈ d f l b c p s,
        NAME/PAYLOAD hex (`-` empty), XATTRS `-` or `khex=vhex,…`; COPYFAIL / XATTRFAIL `-` or a number (`Attr.copyFail`,
        `Attr.xattrFail`); the first node is the image's root (its NAME is ignored: "")
 RPATH / keys  absolute component paths: `/` or `/hex/hex…`
@@ -56,7 +56,7 @@ def parseOptNat (s : String) : Option (Option Nat) :=
   if s = "-" then some none else s.toNat?.map some
 
 def parseNode (tok : String) : Option Flat :=
-  let go (k n p perm uid gid mt dev xa nch cf xf : String) : Option Flat := do
+  let go (k n p perm uid gid mt dev xa nch cf xf loc : String) : Option Flat := do
     let k ← kindOfTok k
     let n ← fromHex n
     let p ← fromHex p
@@ -69,10 +69,13 @@ def parseNode (tok : String) : Option Flat :=
     let nch ← nch.toNat?
     let cf ← parseOptNat cf
     let xf ← parseOptNat xf
-    pure ⟨n, k, p, { perm := perm, uid := uid, gid := gid, mtime := mt, devno := dev, xattrs := xa, copyFail := cf, xattrFail := xf }, nch⟩
+    let loc ← loc.toNat?
+    pure ⟨n, k, p, { perm := perm, uid := uid, gid := gid, mtime := mt, devno := dev, xattrs := xa, copyFail := cf, xattrFail := xf,
+                     dataStart := loc }, nch⟩
   match tok.splitOn ":" with
-  | [k, n, p, perm, uid, gid, mt, dev, xa, nch] => go k n p perm uid gid mt dev xa nch "-" "-"
-  | [k, n, p, perm, uid, gid, mt, dev, xa, nch, cf, xf] => go k n p perm uid gid mt dev xa nch cf xf
+  | [k, n, p, perm, uid, gid, mt, dev, xa, nch] => go k n p perm uid gid mt dev xa nch "-" "-" "0"
+  | [k, n, p, perm, uid, gid, mt, dev, xa, nch, cf, xf] => go k n p perm uid gid mt dev xa nch cf xf "0"
+  | [k, n, p, perm, uid, gid, mt, dev, xa, nch, cf, xf, loc] => go k n p perm uid gid mt dev xa nch cf xf loc
   | _ => none
 
 /-- rebuild the tree from its preorder listing (fuel = number of tokens) -/
@@ -155,12 +158,15 @@ def errnoTok : Errno → String
   | .ENOENT => "ENOENT" | .EEXIST => "EEXIST" | .ENOTDIR => "ENOTDIR" | .ELOOP => "ELOOP"
   | .ENAMETOOLONG => "ENAMETOOLONG" | .EISDIR => "EISDIR" | .EPERM => "EPERM" | .ENXIO => "ENXIO" | .EINVAL => "EINVAL"
   | .EACCES => "EACCES" | .ENOSPC => "ENOSPC" | .EIO => "EIO" | .EROFS => "EROFS" | .EDQUOT => "EDQUOT" | .ENOTSUP => "ENOTSUP"
+  | .ENOSYS => "ENOSYS" | .EINTR => "EINTR" | .ENOMEM => "ENOMEM" | .EMFILE => "EMFILE" | .EBUSY => "EBUSY"
 
 def parseErrno : String → Option Errno
   | "ENOENT" => some .ENOENT | "EEXIST" => some .EEXIST | "ENOTDIR" => some .ENOTDIR | "ELOOP" => some .ELOOP
   | "ENAMETOOLONG" => some .ENAMETOOLONG | "EISDIR" => some .EISDIR | "EPERM" => some .EPERM | "ENXIO" => some .ENXIO
   | "EINVAL" => some .EINVAL | "EACCES" => some .EACCES | "ENOSPC" => some .ENOSPC | "EIO" => some .EIO
   | "EROFS" => some .EROFS | "EDQUOT" => some .EDQUOT | "ENOTSUP" => some .ENOTSUP | "EOPNOTSUPP" => some .ENOTSUP
+  | "ENOSYS" => some .ENOSYS | "EINTR" => some .EINTR | "ENOMEM" => some .ENOMEM | "EMFILE" => some .EMFILE
+  | "EBUSY" => some .EBUSY
   | _ => none
 
 def statusTok (o : Out) : String :=
@@ -173,7 +179,7 @@ def statusPhase (fl : Flags) (t : TNode) : String :=
   | .ok t' =>
     match (restoreFstree fl t').err with
     | some e => "err:" ++ errTok e ++ "@create"
-    | none => match (fillUnpacked id t').err with
+    | none => match (fillUnpacked ordByLoc t').err with
       | some e => "err:" ++ errTok e ++ "@fill"
       | none => match (updateAttribs fl t').err with
         | some e => "err:" ++ errTok e ++ "@attr"
@@ -191,7 +197,7 @@ def treeFor (upath : List Bytes) (raw : TNode) : Except String TNode :=
 def planFor (fl : Flags × TreeFlags) (upath : List Bytes) (raw : TNode) : Except String Out :=
   match treeFor upath raw with
   | .error m => .error m
-  | .ok sub => .ok (unpackPlan sub fl.1 fl.2)
+  | .ok sub => .ok (unpackPlanQ sub fl.1 fl.2)
 
 def keyTok (k : PathC) : String :=
   if k.isEmpty then "/" else String.join (k.map (fun c => "/" ++ toHexTok c))
@@ -315,10 +321,10 @@ def doMonitor (toks : List String) : Option String :=
 def doMain (fl : Flags × TreeFlags) (sub : TNode) (root : Option Bytes) (cwd : PathC) (ents : List (PathC × Node))
     (faults : List (Nat × Errno)) : String :=
   let t := decode fl.2 sub
-  let r := unpackMain id fl.1 t root (faultsOf faults) cwd (fsOf ents)
+  let r := unpackMain ordByLoc fl.1 t root (faultsOf faults) cwd (fsOf ents)
   let planPaths := match treeSort t with
     | .error _ => []
-    | .ok t' => (planSorted id fl.1 t').syscalls.map (fun sc => r.cwd ++ splitSlash sc.path)
+    | .ok t' => (planSorted ordByLoc fl.1 t').syscalls.map (fun sc => r.cwd ++ splitSlash sc.path)
   let keys := dedup (ents.map (·.1) ++ r.pre.map (fun x => cwd ++ splitSlash x.1.path) ++ [r.cwd] ++ planPaths)
   let chd := match r.chdirRes with | none => "-" | some none => "0" | some (some e) => errnoTok e
   s!"exit:{r.exit} est:{b2s r.established} status:{statusPhase fl.1 t} chdir:{chd} cwd:{keyTok r.cwd} pre:{r.pre.length}"
